@@ -7,8 +7,14 @@
                   register_in_colors_conf 1556-1573), CompoundPalette.get_sub_palette
                   1628-1638, PaletteUser._mk_palette 1700-1733,
                   get/set_global_colors_config 1736-1758, _GSYNCED_PALETTES
-     ak/ppobj.py  CHTextResult 27-102, PPEnumFieldType cell cache 2047-2114
-     ak/hdoc.py   HCommand.__init__ (palette captured at construction) 167-169
+     ak/ppobj.py  CHTextResult 27-102, PPEnumFieldType cell cache 2047-2123 (keyed by
+                  the palette object, then by _val_cache_key(value) = (type, text, value):
+                  one entry per literal)
+     ak/hdoc.py   HCommand: the palette is looked up when help is printed (property _c,
+                  170-181), so h(obj) is a Render of the help program under the global
+                  configuration and HCommand() itself does nothing to the world -- the
+                  harness translates "help" into ORender ... None false PNone 1 (the
+                  extractor fails closed on any other shape of HCommand / LLImpl)
    Palette objects live in a heap and have an identity; identities come from an
    allocation oracle (the list carried by each operation) and may be re-used
    once the object is not pinned any more -- the CPython contract for id().
@@ -126,7 +132,7 @@ Record world := mkWorld {
   w_global : option cid;             (* _GLOBAL_COLORS_CONF *)
   w_synced : list (cls * pid);       (* _GSYNCED_PALETTES *)
   w_enums : list (Z * enum_cache);
-  w_hcmds : list (Z * pid);          (* HCommand objects: captured palette *)
+  w_hcmds : list (Z * pid);          (* lazy results (CHTextResult): handle -> the palette it holds *)
   w_stack : list pid;                (* palettes held by the running call *)
   w_oracle : list pid;               (* identities the allocator will hand out *)
   w_nextc : cid                      (* name for configs created by the package *)
@@ -296,8 +302,10 @@ Definition ft_texts (ft lit : Z) : list (Z * list (acc * list Z)) :=
   end.
 
 (* PPEnumFieldType.make_desired_cell_ch_chunks: the cache key is the palette
-   object or its id (gen constant); values are looked up with == / hash, so
-   [vkey] identifies the equality class and [lit] the literal *)
+   object or its id (gen constant); below it the entries are found by [vkey].
+   The source keys them by _val_cache_key(value) = (type(value), str(value), value)
+   (gen constant enum_val_key_literal, required to be true by the proofs): one
+   entry per literal, so render_item passes the literal as [vkey] *)
 Definition enum_cell (w : world) (ft : Z) (e : pid) (vkey lit modi : Z) : world * list chunk :=
   let cache := match zfind ft (w_enums w) with Some c => c | None => [] end in
   let by_val := match zfind e cache with Some x => x | None => [] end in
@@ -319,7 +327,9 @@ Definition render_item (w : world) (cp : pid) (it : item) : res (world * list ch
   | IChunk (Some K) a t =>
       bind (get_sub w cp K) (fun wp => Ok (fst wp, [(color_of (pal_of (fst wp) (snd wp)) a, t)]))
   | IEnum ft K vkey lit modi =>
-      bind (get_sub w cp K) (fun wp => Ok (enum_cell (fst wp) ft (snd wp) vkey lit modi))
+      (* [vkey], the class of the literal under Python's ==, is what the cache was keyed by before
+         the repair of enum-cache-equal-keys; it does not enter any more *)
+      bind (get_sub w cp K) (fun wp => Ok (enum_cell (fst wp) ft (snd wp) lit lit modi))
   end.
 
 Fixpoint render_line (w : world) (cp : pid) (l : list item) : res (world * list chunk) :=
@@ -388,12 +398,9 @@ Inductive op :=
 | ORegister (c : cid) (items : list (synt * descr))
 | OSetGlobal (c : option cid)
 | ORender (o : objspec) (copt : option cid) (nocolor : bool) (pa : palarg) (mode : Z) (ids : list pid)
-| ONewH (h : Z) (ids : list pid)
-| OHelp (h : Z) (o : objspec)
 (* lazy results (ppobj.py CHTextResult 27-102): r = obj.ch_text(...) selects the palette at once and keeps it;
    the text is produced when the result is consumed -- possibly later, possibly line by line, interleaved
-   with the consumption of other results.  The handle table is the one of the HCommand objects (a handle
-   -> the palette it holds). *)
+   with the consumption of other results.  w_hcmds: a handle -> the palette it holds. *)
 | OMake (h : Z) (K : cls) (copt : option cid) (nocolor : bool) (pa : palarg) (ids : list pid)
                                                      (* r_h = obj.ch_text(colors_conf, no_color, palette) *)
 | ONext (h : Z) (o : objspec) (ids : list pid)       (* next(it_h): [o] = the sub-palettes first requested and the line
@@ -421,14 +428,6 @@ Definition step (w : world) (o : op) : res (world * list (list Z)) :=
         let '(w1, cp) := wp in
         bind (consume (set_stack w1 [cp]) cp o mode) (fun wt =>
           Ok (gc (set_stack (fst wt) []), snd wt)))
-  | ONewH h ids =>
-      bind (class_call (set_oracle w ids) None false hcmd_cls false) (fun wp =>
-        Ok (gc (set_hcmds (fst wp) ((h, snd wp) :: zdel h (w_hcmds (fst wp)))), []))
-  | OHelp h o =>
-      match zfind h (w_hcmds w) with
-      | None => Err KeyErr
-      | Some cp => bind (gen_lines w cp o) (fun wl => Ok (gc (fst wl), [text_lines (snd wl)]))
-      end
   | OMake h K copt nocolor pa ids =>
       bind (mk_palette (set_oracle w ids) K pa copt nocolor) (fun wp =>
         Ok (gc (set_hcmds (fst wp) ((h, snd wp) :: zdel h (w_hcmds (fst wp)))), []))
